@@ -308,6 +308,61 @@ def borderline(ops):
     return False
 
 
+def fresh_message_history(rng):
+    """real Core / Publisher / Subscriber with one NEW message object per publication and recording subscribers"""
+    import simpy
+    import cyecca.sim.msgs as msgs
+    import cyecca.sim.uros as uros
+    core = uros.Core()
+    topics = {"imu_a": msgs.Imu, "imu_b": msgs.Imu, "att": msgs.Attitude}
+    pubs = {t: uros.Publisher(core, t, ty) for t, ty in topics.items()}
+    got = {t: [] for t in topics}
+    subs = [uros.Subscriber(core, t, ty, (lambda m, t=t: got[t].append(m))) for t, ty in topics.items()]
+    sent = {t: [] for t in topics}
+    problems = []
+    fresh = msgs.Attitude()
+    if not all(np.all(np.isnan(np.atleast_1d(fresh.data[f]))) for f in fresh.data.dtype.names):
+        problems.append("a newly created message is not nan-initialised")
+
+    def source():
+        k = 0
+        while True:
+            t = float(core.now)
+            for tp in ("imu_a", "imu_b"):
+                if tp == "imu_b" and k % 2 == 0:
+                    continue
+                m = msgs.Imu(); sgn = 1.0 if tp == "imu_a" else -1.0
+                m.data["time"] = t + (0.0 if tp == "imu_a" else 1000.0)
+                m.data["gyro"] = [sgn * (k + 1), float(rng.integers(0, 9)), 0]
+                m.data["accel"] = [0, 0, sgn * 9.8]
+                sent[tp].append((float(m.data["time"]), [float(v) for v in m.data["gyro"]]))
+                pubs[tp].publish(m)
+            m = msgs.Attitude(); m.data["time"] = t; m.data["q"] = [1, 0, 0, 0]
+            if k % 2 == 0:
+                m.data["r"] = [0.1, 0.2, 0.3]
+            sent["att"].append((t, k % 2 == 0))
+            pubs["att"].publish(m)
+            k += 1
+            yield simpy.Timeout(core, 0.01)
+    simpy.Process(core, source())
+    core.run(until=0.085)
+    n = 0
+    for tp in ("imu_a", "imu_b"):
+        n += len(got[tp])
+        if len(got[tp]) != len(sent[tp]):
+            problems.append("%s: %d deliveries for %d publications" % (tp, len(got[tp]), len(sent[tp])))
+        for i, (m, (tm, gy)) in enumerate(zip(got[tp], sent[tp])):
+            if float(m.data["time"]) != tm or [float(v) for v in m.data["gyro"]] != gy:
+                problems.append("%s: delivery %d holds time %r gyro %r, published was time %r gyro %r"
+                                % (tp, i, float(m.data["time"]), [float(v) for v in m.data["gyro"]], tm, gy)); break
+    n += len(got["att"])
+    for i, (m, (tm, has_r)) in enumerate(zip(got["att"], sent["att"])):
+        r = np.atleast_1d(m.data["r"]).astype(float)
+        if float(m.data["time"]) != tm or (has_r and not np.allclose(r, [0.1, 0.2, 0.3])) or (not has_r and not np.all(np.isnan(r))):
+            problems.append("att: delivery %d holds time %r r %r (published time %r, r %s)" % (i, float(m.data["time"]), r.tolist(), tm, "set" if has_r else "left unset (nan)")); break
+    return {"deliveries": n, "problems": problems}
+
+
 def search(ctx):
     rng = np.random.default_rng(ctx.seed + 2020)
     big = ctx.tier != "quick"
@@ -460,6 +515,16 @@ def search(ctx):
                         report("node:mag-rate", "magnetometer corrections closer than dt_min_mag - 1 ms", {"history": h, "t": int(f[1]), "previous": last_mag},
                                obligation="theorem:C20.mag_spacing")
                     last_mag = int(f[1])
+    # ---- fresh message object per publication (as ULogReplay does), subscribers that KEEP what they were handed,
+    #      two topics of the same message type: what each subscriber holds must be what was published on ITS topic, in order
+    try:
+        bad = fresh_message_history(rng)
+        st["fresh_message_deliveries"] = bad["deliveries"]
+        if bad["problems"]:
+            report("bus:fresh-messages", "messages created per publication are not delivered unchanged / to their own topic only: " + bad["problems"][0],
+                   {"problems": bad["problems"][:5]})
+    except Exception as e:   # noqa: BLE001
+        ctx.notes.append("search: fresh-message history raised %s: %s" % (type(e).__name__, str(e)[:160]))
     ctx.samples.extend(found[:2] or [{"bus_history": hist[0][:12]}, {"node_history": nh[0][:12]}])
     st["evaluations"] = st["bus_ops"] + st["node_msgs"]
     st["distinct_nontrivial"] = st["deliveries"] + st["node_actions"] + st["bus_errors"]
